@@ -1,19 +1,17 @@
 /- ELAB suite: the elaboration `Abs.Source.elabSrc` of the reference tree of the lexed source against the generator's AST.
    Case:   ELAB \t id \t <escaped source text> \t <ast term>
-   Result: `same` (equal up to the association of `;` / blank-line sequences) | `differs <why>` | `none <why>` (the source is outside what the elaboration covers: `lex`, `refparse`,
+   Result: `same` (equal up to the association of `;` / blank-line sequences; `same-p`: the source is outside the reference
+           grammar — side-effect blocks — and the tree is the one of the parser model, `parse`) | `differs <why>` | `none <why>` (the source is outside what the elaboration covers: `lex`, `refparse`,
            `elab` say at which step) | `BAD-CASE …` -/
 import Garnish.Driver.LexDrv
 import Garnish.Driver.BuildDrv
 import Garnish.Driver.RunDrv
 import Garnish.Lemmas.SourceRep
+import Garnish.Model.Tokens
 namespace Garnish.Driver
 open Garnish Garnish.Gen Garnish.Spec Garnish.Abs Garnish.Abs.Source Garnish.Model.Parser Garnish.Model.Lexer
 
 namespace ElabAux
-
-def numberLex : List LexerToken → Nat → List PToken
-  | [], _ => []
-  | t :: rest, k => { text := t.text, type := t.tokenType, row := 0, col := k } :: numberLex rest (k + 1)
 
 /- `showE`: the term of the generator (tools/gen/proggen.py `Numbering.term`) -/
 mutual
@@ -95,16 +93,27 @@ def elabCase (f : List String) : String :=
     | some pg =>
       match lex rustCharClass (Garnish.Proto.unescape src.toList) with
       | .ok ltoks =>
-        let toks := numberLex ltoks 0
+        let toks := Garnish.Model.toP ltoks
+        let cmp (tag : String) (pe : Program Float) : String :=
+          let a := showProgram pe
+          let b := showProgram pg
+          if a == b then "same" ++ tag else s!"differs{tag} elab={a} ast={b}"
         match refParse Table.gen toks with
         | .ok rt =>
           match elabSrc parseFloatImpl toks rt with
-          | some pe =>
-            let a := showProgram pe
-            let b := showProgram pg
-            if a == b then "same" else s!"differs elab={a} ast={b}"
+          | some pe => cmp "" pe
           | none => "none elab"
-        | _ => "none refparse"
+        | _ =>
+          -- outside the reference grammar (side-effect blocks): the tree of the parser model itself
+          match parse toks with
+          | .ok r =>
+            match toTree r with
+            | some t =>
+              match elabSrc parseFloatImpl toks (treeRT r.nodes t) with
+              | some pe => cmp "-p" pe
+              | none => "none elab-p"
+            | none => "none tree"
+          | _ => "none parse"
       | _ => "none lex"
   | _ => "BAD-CASE fields"
 
